@@ -388,6 +388,10 @@ fn resolve_callee<'tcx>(
             v.push(("generic_args", s(format!("{:?}", args))));
             v.push(("local", J::B(did.is_local())));
             v.push(("krate", s(tcx.crate_name(did.krate).to_string())));
+            {
+                let sig = tcx.fn_sig(*did).instantiate_identity().skip_norm_wip();
+                v.push(("unsafe", J::B(format!("{:?}", sig.safety()).contains("Unsafe"))));
+            }
             // resolve trait methods to the impl that will run
             let env = TypingEnv::post_analysis(tcx, body_def);
             let resolved = std::panic::catch_unwind(std::panic::AssertUnwindSafe(|| {
